@@ -526,6 +526,8 @@ def main(tier):
     import probepure
     rep.attempt(probepure.check_probe_pure, rep, mod)
     rep.attempt(probepure.check_trunc_cmp, rep, mod)
+    import c02
+    rep.attempt(c02.check_rollback, rep)      # the output-overflow exits of the asm decoders (R-PARKED-EXITCODE, R-PARK-EOB-ADJUST)
     import asmlin, c19
     rep.attempt(asmlin.check, rep, 'INFLATE', 6, c19.field_offsets('struct inflate_state', ['next_in', 'avail_in', 'next_out', 'avail_out', 'total_out']), r'^decode_huffman_code_block_stateless_0\d$')
     import siblings, fieldinit
